@@ -29,8 +29,13 @@ pub fn run(ctx: &mut Ctx) {
     reed_solomon_simd::verif_hooks::POISON_SEED.store(ctx.seed | 0x0400_0000_0000_0001, Ordering::Relaxed);
     let mut cases = vec![];
     let mut metas = vec![];
-    let mut sb = 2;
-    while sb <= max_sb {
+    // every even size up to max_sb, then (quick tier) a sample of larger ones: 5 .. 18 blocks per shard
+    let mut all_sizes: Vec<usize> = (1..=max_sb / 2).map(|h| 2 * h).collect();
+    if !ctx.thorough() {
+        for _ in 0..3 { all_sizes.extend_from_slice(&MULTI_BLOCK_SIZES); }
+        all_sizes.extend_from_slice(&[256 + 64, 512 + 2, 640, 832 + 30]);
+    }
+    for sb in all_sizes {
         for _ in 0..cfgs_per_size {
             let mw = *ctx.rng.pick(&[8usize, 16, 32]);
             let cfg = gen_cfg(&mut ctx.rng, mw, &["high", "low", "default", "rs"], &ENGINES, &[sb]);
@@ -90,7 +95,6 @@ pub fn run(ctx: &mut Ctx) {
             cases.push(c);
             metas.push((cfg, slots, originals.len(), go.len(), gr.len(), enc_idx, dec_idx));
         }
-        sb += 2;
     }
     let runs = ctx.run_cases(&cases);
     reed_solomon_simd::verif_hooks::POISON_SEED.store(0, Ordering::Relaxed);
